@@ -181,6 +181,7 @@ def main():
     secs = args.secs or budget["secs"]
     seen = set()
     i = 0
+    prev_case = None
     case_limit = float(os.environ.get("VERIF_CASE_SECS", budget.get("case_secs", 15)))
 
     def on_alarm(signum, frame):
@@ -201,7 +202,14 @@ def main():
                 break
             try:
                 ctx.gen_index = i
-                case = mod.gen(rng, ctx)
+                if getattr(mod, "SIBLINGS", False) and prev_case is not None and "lib" not in prev_case and rng.random() < 0.12:
+                    from rv.gen.circuits import retype_sibling
+
+                    case = retype_sibling(rng, prev_case)
+                    ctx.count("sibling_cases")
+                else:
+                    case = mod.gen(rng, ctx)
+                prev_case = case
             except Exception:  # noqa: BLE001
                 res["errors"].append("generator: " + traceback.format_exc(limit=8))
                 i += 1
